@@ -284,6 +284,7 @@ type SpecFile struct {
 	Sorts     []string
 	Lemmas    []*LemmaDef
 	Ghosts    []GhostVar
+	FnTypes   []string
 }
 
 type parser struct {
@@ -315,7 +316,7 @@ func (ps *parser) expectOp(s string) error {
 
 var clauseKW = map[string]bool{"requires": true, "ensures": true, "modifies": true, "invariant": true, "decreases": true,
 	"let": true, "ghost": true, "on": true, "nopanic": true, "pure": true, "trusted": true, "inline": true, "props": true, "attr": true,
-	"func": true, "macro": true, "ufunc": true, "axiom": true, "sort": true, "lemma": true, "assume": true, "show": true, "hfunc": true}
+	"func": true, "macro": true, "ufunc": true, "axiom": true, "sort": true, "lemma": true, "assume": true, "show": true, "hfunc": true, "fntype": true}
 
 // atClauseStart: a clause keyword at beginning of a line ends the previous expression.
 func (ps *parser) atClauseStart() bool {
@@ -451,6 +452,9 @@ func (ps *parser) parseFile() (*SpecFile, error) {
 				return nil, err
 			}
 			sf.Ghosts = append(sf.Ghosts, GhostVar{Name: name, Sort: srt})
+		case "fntype":
+			ps.next()
+			sf.FnTypes = append(sf.FnTypes, ps.next().text)
 		case "hfunc":
 			ps.next()
 			h := &HFuncDef{File: ps.file, Line: ps.peek().line}
@@ -482,9 +486,16 @@ func (ps *parser) parseFile() (*SpecFile, error) {
 				}
 			}
 			ps.next()
-			rs, err := ps.parseSort()
-			if err != nil {
-				return nil, err
+			var rs string
+			var err error
+			if ps.isOp("(") {
+				if rs, err = ps.parseSort(); err != nil {
+					return nil, err
+				}
+			} else {
+				for !ps.isID("reads") && !ps.isOp("=") && ps.peek().kind != "eof" {
+					rs += ps.next().text
+				}
 			}
 			h.Ret = rs
 			if ps.isID("reads") {
@@ -609,7 +620,7 @@ func (ps *parser) atTopDecl() bool {
 		return false
 	}
 	switch t.text {
-	case "func", "macro", "ufunc", "axiom", "sort", "lemma", "trusted", "hfunc":
+	case "func", "macro", "ufunc", "axiom", "sort", "lemma", "trusted", "hfunc", "fntype":
 		return true
 	case "ghost":
 		// top-level ghost declaration: "ghost name: Sort" with no initialiser, at column 0 after a blank line;
@@ -1370,4 +1381,5 @@ func mergeSpec(dst, src *SpecFile) {
 	dst.Lemmas = append(dst.Lemmas, src.Lemmas...)
 	dst.HFuncs = append(dst.HFuncs, src.HFuncs...)
 	dst.Ghosts = append(dst.Ghosts, src.Ghosts...)
+	dst.FnTypes = append(dst.FnTypes, src.FnTypes...)
 }
